@@ -79,7 +79,7 @@ def run_check(pid, tier, seed, plan=None):
     byid = {j["id"]: j for j in jobs}
     for tr in traces:
         j = byid[tr["id"]]
-        tr["kind"], tr["root"], tr["ops"] = j.get("kind", ""), j.get("root", "?"), j["ops"]
+        tr["kind"], tr["root"], tr["ops"], tr["job"] = j.get("kind", ""), j.get("root", "?"), j["ops"], j
     mods = sorted({j.get("module", "HgTrace") for j in jobs})
     val = {"verdicts": [], "states": 0, "distinct": 0, "wall": 0.0, "errors": [], "dropped": []}
     for mod in mods:
